@@ -39,10 +39,33 @@ class _Env:
         self.compare_sites = set()
         self.last_assigning_clock = None
         self.flow_ok = True
-        self.mt = 0
-        self.mem = None
         self.expiry = set()
-        self.seen_mt = None          # what the code under extraction has stored in its local `mtime` (None at the start of acquire)
+        self.nstat = 0               # successful stat calls so far
+        self.parent = {}             # union-find over mtime objects: two objects are merged once the code has compared them equal
+        self.latest = {}             # class root -> index of the most recent stat whose result belongs to the class
+
+    def find(self, k):
+        while self.parent.get(k, k) != k:
+            k = self.parent[k]
+        return k
+
+    def staleness(self, mt):
+        """how many successful stats ago the lock-file generation denoted by `mt` was last observed (0 = by the latest stat)"""
+        return self.nstat - 1 - self.latest[self.find(mt.k)]
+
+    def remembered(self):
+        """staleness of every mtime object the code under extraction currently keeps in a local variable (any frame of
+        journal/_file.py): the only environment history it can branch on later. Name-free: the frames' locals are scanned for
+        _MT instances."""
+        f = sys._getframe(2)
+        st = []
+        while f is not None:
+            if f.f_code.co_filename.endswith("journal/_file.py"):
+                for v in f.f_locals.values():
+                    if isinstance(v, _MT):
+                        st.append(self.staleness(v))
+            f = f.f_back
+        return tuple(sorted(st))
 
     def site(self):
         f = sys._getframe(2)
@@ -56,9 +79,9 @@ class _Env:
     def out(self, call, *outcomes):
         if len(self.trace) >= self.maxcalls:
             raise core.PathAbort()
-        # the automaton state is (call, call site, outcome of this acquire()'s most recent stat): the last component is the only
-        # piece of environment history the code keeps in a local variable (`mtime`) and branches on later
-        site = self.site() + (("mem", self.mem),)
+        # the automaton state is (call, call site, which earlier stat results the code still remembers): the last component is
+        # the only piece of environment history the code keeps in local variables and branches on later
+        site = self.site() + (("mem", self.remembered()),)
         ex = core.cur()
         chosen = outcomes[-1]
         for o in outcomes[:-1]:
@@ -67,14 +90,43 @@ class _Env:
                 chosen = o
                 break
         self.trace.append((call, chosen, site))
-        if call == "stat":
-            self.mem = chosen
-        elif call == "create" and chosen == "ok":
-            self.mem = None
         return chosen
 
 
 _env: _Env = None  # type: ignore
+
+
+class _MT:
+    """st_mtime of the k-th successful stat. The code can only compare it with an earlier one (or None): the comparison is an
+    environment event `mtcmp:<a>:<b>` (a, b = staleness of the two operands) whose outcome the file-system model decides."""
+
+    def __init__(self, k):
+        self.k = k
+
+    def _ne(self, o):
+        if o is None:
+            return True
+        if not isinstance(o, _MT):
+            return NotImplemented
+        e = _env
+        ra, rb = e.find(self.k), e.find(o.k)
+        if ra == rb:
+            return False
+        a, b = e.staleness(self), e.staleness(o)
+        if e.out(f"mtcmp:{a}:{b}", "ne", "eq") == "ne":
+            return True
+        lo, hi = (ra, rb) if e.latest[ra] < e.latest[rb] else (rb, ra)
+        e.parent[lo] = hi
+        return False
+
+    def __ne__(self, o):
+        return self._ne(o)
+
+    def __eq__(self, o):
+        r = self._ne(o)
+        return r if r is NotImplemented else not r
+
+    __hash__ = object.__hash__
 
 
 class _Clock:
@@ -146,14 +198,12 @@ class _OS:
         _env.out("close_fd", "ok")
 
     def stat(self, p):
-        # "same" is only a possible answer once this acquire() has seen an mtime (its local `mtime` starts as None)
-        o = _env.out("stat", "same", "new", "enoent") if _env.seen_mt is not None else _env.out("stat", "new", "enoent")
-        if o == "enoent":
+        if _env.out("stat", "ok", "enoent") == "enoent":
             raise OSError(errno.ENOENT, "x")
-        if o == "new":
-            _env.mt += 1
-            _env.seen_mt = _env.mt
-        return types.SimpleNamespace(st_mtime=_env.seen_mt, st_size=0)
+        k = _env.nstat
+        _env.nstat += 1
+        _env.latest[k] = k
+        return types.SimpleNamespace(st_mtime=_MT(k), st_size=0)
 
     def rename(self, a, b):
         if _env.out("rename", "ok", "enoent") == "enoent":
@@ -224,6 +274,7 @@ def extract(lock_cls_name, maxcalls=22):
     t0 = time.time()
     ex.run(body)
     nodes, edges, conflicts = {}, {}, 0
+    conflict_samples = []
 
     def nid(k):
         return nodes.setdefault(k, len(nodes))
@@ -236,13 +287,15 @@ def extract(lock_cls_name, maxcalls=22):
             prev = edges.setdefault(a, {}).get((tr[i][0], tr[i][1]))
             if prev is not None and prev != b:
                 conflicts += 1
+                if len(conflict_samples) < 5:
+                    conflict_samples.append((keys[i], (tr[i][0], tr[i][1]), keys[i + 1], [k for k, v in nodes.items() if v == prev][0]))
             edges[a][(tr[i][0], tr[i][1])] = b
     first = min(traces, key=len)
     root = nodes[(first[0][0], first[0][2])]
     if len(info["expiry"]) != 1 or not all(isinstance(g, int) and g % TICK == 0 for _, g in info["expiry"]):
         info["flow_ok"] = False           # the expiry test is not a single comparison with a multiple of the model tick
     return dict(nodes=nodes, edges=edges, root=root, assign_sites=info["assign"], expiry=sorted(info["expiry"]), compare_sites=info["compare"], flow_ok=info["flow_ok"],
-                conflicts=conflicts, paths=ex.stats.paths, wall_s=time.time() - t0, lock=lock_cls_name)
+                conflicts=conflicts, conflict_samples=conflict_samples, paths=ex.stats.paths, wall_s=time.time() - t0, lock=lock_cls_name)
 
 
 # ============================================================================================== step 2: BMC
@@ -253,13 +306,17 @@ GRACE_T = GRACE // TICK
 SHARED = ("create", "stat", "rename")      # environment calls that read or write the shared lock link; all others are process-local
 
 
+HIST = 3           # how many earlier stat results the model keeps per process (a comparison reaching further back is a CUT)
+
+
 def bmc(aut, K, depth, crash, rounds=1, timeout_ms=600000, hold_bound=2, step_delay=1, tmax=31):
     """Macro-step BMC: one step of a process = one SHARED call followed by the chain of local calls up to its next shared call
     (local calls - clock reads, the expiry comparison, sleep, unlink of the private rename target, the writes inside the critical
     section - commute with the other processes' steps because they touch no shared model state). K live processes perform `rounds`
     append_logs each; crash=True adds a dead holder that owns the lock link from the start. Bit-vector encoding; time in ticks.
-    hold_bound: a live holder releases within this many ticks of creating its lock; step_delay: a process inside append_logs is not
-    suspended longer than this many ticks between consecutive steps (None = arbitrary suspension)."""
+    hold_bound: a live holder releases within this many ticks of creating its lock (its critical section may take that long);
+    step_delay: a process inside append_logs that does not hold the lock is not suspended longer than this many ticks between
+    consecutive steps (None = arbitrary suspension)."""
     nodes, edges, root = aut["nodes"], aut["edges"], aut["root"]
     inv = {v: k for k, v in nodes.items()}
     assign = aut["assign_sites"]
@@ -274,8 +331,9 @@ def bmc(aut, K, depth, crash, rounds=1, timeout_ms=600000, hold_bound=2, step_de
     def call_of(n):
         return inv[n][0]
 
-    def local_chain(n, tmp, last, nowv, fuel=12):
-        """symbolically run the local calls starting at node n; returns (pc, tmp, last) expressions at the next shared call / terminal"""
+    def local_chain(n, tmp, last, nowv, hs, fuel=14):
+        """symbolically run the local calls starting at node n; returns (pc, tmp, last) expressions at the next shared call / terminal.
+        hs = the generations seen by this process's latest successful stats (hs[0] = most recent)"""
         if fuel == 0:
             return V(CUT), tmp, last
         if n == CUT or n not in edges:
@@ -286,15 +344,23 @@ def bmc(aut, K, depth, crash, rounds=1, timeout_ms=600000, hold_bound=2, step_de
             return V(n), tmp, last
         if c == "mono":
             site = tuple(x for x in inv[n][1] if not (isinstance(x, tuple) and x and x[0] == "mem"))
-            return local_chain(es.get(("mono", "ok"), CUT), nowv, (nowv if site in assign else last), nowv, fuel - 1)
+            return local_chain(es.get(("mono", "ok"), CUT), nowv, (nowv if site in assign else last), nowv, hs, fuel - 1)
         if c == "expired":
             op, g = aut["expiry"][0]
             gt = g // TICK
             cond = {"gt": z3.UGT, "ge": z3.UGE, "lt": z3.ULT, "le": z3.ULE}[op](tmp - last, gt)
-            y = local_chain(es.get(("expired", "yes"), CUT), tmp, last, nowv, fuel - 1)
-            n_ = local_chain(es.get(("expired", "no"), CUT), tmp, last, nowv, fuel - 1)
+            y = local_chain(es.get(("expired", "yes"), CUT), tmp, last, nowv, hs, fuel - 1)
+            n_ = local_chain(es.get(("expired", "no"), CUT), tmp, last, nowv, hs, fuel - 1)
             return z3.If(cond, y[0], n_[0]), z3.If(cond, y[1], n_[1]), z3.If(cond, y[2], n_[2])
-        return local_chain(es.get((c, "ok"), CUT), tmp, last, nowv, fuel - 1)
+        if c.startswith("mtcmp:"):
+            a, b = (int(x) for x in c.split(":")[1:])
+            if a >= HIST or b >= HIST:
+                return V(CUT), tmp, last
+            cond = hs[a] != hs[b]
+            y = local_chain(es.get((c, "ne"), CUT), tmp, last, nowv, hs, fuel - 1)
+            n_ = local_chain(es.get((c, "eq"), CUT), tmp, last, nowv, hs, fuel - 1)
+            return z3.If(cond, y[0], n_[0]), z3.If(cond, y[1], n_[1]), z3.If(cond, y[2], n_[2])
+        return local_chain(es.get((c, "ok"), CUT), tmp, last, nowv, hs, fuel - 1)
     term_ok = [n for k, n in nodes.items() if k[0] == "END_OK"]
     term_raised = [n for k, n in nodes.items() if k[0] == "END_RAISED"]
     shared_nodes = [n for n in edges if call_of(n) in SHARED]
@@ -307,7 +373,7 @@ def bmc(aut, K, depth, crash, rounds=1, timeout_ms=600000, hold_bound=2, step_de
     idle = [[z3.Bool(f"idle_{p}_{t}") for t in range(T + 1)] for p in range(K)]
     lock = [z3.Bool(f"lock_{t}") for t in range(T + 1)]
     gen = [bv(f"gen_{t}", GW) for t in range(T + 1)]
-    seen = [[bv(f"seen_{p}_{t}", GW) for t in range(T + 1)] for p in range(K)]
+    seen = [[[bv(f"seen{j}_{p}_{t}", GW) for t in range(T + 1)] for p in range(K)] for j in range(HIST)]
     last = [[bv(f"last_{p}_{t}", TW) for t in range(T + 1)] for p in range(K)]
     tmp = [[bv(f"tmp_{p}_{t}", TW) for t in range(T + 1)] for p in range(K)]
     acq = [[bv(f"acq_{p}_{t}", TW) for t in range(T + 1)] for p in range(K)]
@@ -317,8 +383,8 @@ def bmc(aut, K, depth, crash, rounds=1, timeout_ms=600000, hold_bound=2, step_de
     s.add(lock[0] == bool(crash), gen[0] == 0, now[0] == 0)
     # the local prefix of acquire() (clock read before the first create) - evaluated when a round starts
     for p in range(K):
-        pc0, tmp0, last0 = local_chain(root, V(0, TW), V(0, TW), now[0])
-        s.add(pc[p][0] == pc0, seen[p][0] == NONE, rnd[p][0] == 0, last[p][0] == last0, tmp[p][0] == tmp0, acq[p][0] == 0, lastact[p][0] == 0,
+        pc0, tmp0, last0 = local_chain(root, V(0, TW), V(0, TW), now[0], [seen[j][p][0] for j in range(HIST)])
+        s.add(pc[p][0] == pc0, z3.And([seen[j][p][0] == NONE for j in range(HIST)]), rnd[p][0] == 0, last[p][0] == last0, tmp[p][0] == tmp0, acq[p][0] == 0, lastact[p][0] == 0,
               z3.Not(hold[p][0]), idle[p][0])
     for t in range(T):
         s.add(z3.ULE(sched[t], K), z3.UGE(now[t + 1], now[t]), z3.ULE(now[t + 1], tmax))
@@ -326,53 +392,57 @@ def bmc(aut, K, depth, crash, rounds=1, timeout_ms=600000, hold_bound=2, step_de
         for p in range(K):
             s.add(z3.Implies(hold[p][t + 1], z3.ULE(now[t + 1] - acq[p][t + 1], hold_bound)))
             here_p = sched[t] == p
-            keep_p = z3.And(seen[p][t + 1] == seen[p][t], last[p][t + 1] == last[p][t], tmp[p][t + 1] == tmp[p][t], acq[p][t + 1] == acq[p][t],
+            keep_p = z3.And(z3.And([seen[j][p][t + 1] == seen[j][p][t] for j in range(HIST)]), last[p][t + 1] == last[p][t], tmp[p][t + 1] == tmp[p][t], acq[p][t + 1] == acq[p][t],
                             rnd[p][t + 1] == rnd[p][t], hold[p][t + 1] == hold[p][t], idle[p][t + 1] == idle[p][t], lastact[p][t + 1] == lastact[p][t])
             s.add(z3.Implies(z3.Not(here_p), z3.And(pc[p][t + 1] == pc[p][t], keep_p)))
             s.add(z3.Implies(here_p, lastact[p][t + 1] == now[t + 1]))
             if step_delay is not None:
-                s.add(z3.Implies(z3.And(here_p, z3.Not(idle[p][t])), z3.ULE(now[t + 1] - lastact[p][t], step_delay)))
+                s.add(z3.Implies(z3.And(here_p, z3.Not(idle[p][t]), z3.Not(hold[p][t])), z3.ULE(now[t + 1] - lastact[p][t], step_delay)))
+            # the holder's next step (its release) comes within hold_bound of the acquisition
+            s.add(z3.Implies(z3.And(here_p, hold[p][t]), z3.ULE(now[t + 1] - acq[p][t], hold_bound)))
             s.add(z3.Implies(here_p, z3.Or([pc[p][t] == n for n in shared_nodes])))
             for n in shared_nodes:
                 es = edges[n]
                 c = call_of(n)
                 here = z3.And(here_p, pc[p][t] == n)
 
-                def then(o, es=es, c=c):
+                cur_hs = [seen[j][p][t] for j in range(HIST)]
+                new_hs = [gen[t]] + cur_hs[:-1]                  # after a successful stat
+
+                def then(o, hs, es=es, c=c):
                     """(pc', tmp', last') after outcome o and the following local chain; a process that starts a round first
                     runs the local prefix of acquire() (its initial clock read) at the instant of this very step"""
-                    _, tmp_s, last_s = local_chain(root, tmp[p][t], last[p][t], now[t + 1])
+                    _, tmp_s, last_s = local_chain(root, tmp[p][t], last[p][t], now[t + 1], hs)
                     tmp_in = z3.If(idle[p][t], tmp_s, tmp[p][t])
                     last_in = z3.If(idle[p][t], last_s, last[p][t])
-                    return local_chain(es.get((c, o), CUT), tmp_in, last_in, now[t + 1])
+                    return local_chain(es.get((c, o), CUT), tmp_in, last_in, now[t + 1], hs)
 
                 def finish(pcx, tmpx, lastx, seenx, holdx, acqx):
                     """wrap-up: a macro step that reaches END_OK starts the next round (or stops)"""
                     is_ok = z3.Or([pcx == n2 for n2 in term_ok]) if term_ok else z3.BoolVal(False)
                     more = z3.ULT(rnd[p][t] + 1, rounds)
-                    pcr, tmpr, lastr = local_chain(root, tmpx, lastx, now[t + 1])
+                    pcr, tmpr, lastr = local_chain(root, tmpx, lastx, now[t + 1], seenx)
                     return z3.And(
                         pc[p][t + 1] == z3.If(is_ok, z3.If(more, pcr, V(DONE)), pcx),
                         tmp[p][t + 1] == z3.If(z3.And(is_ok, more), tmpr, tmpx), last[p][t + 1] == z3.If(z3.And(is_ok, more), lastr, lastx),
                         rnd[p][t + 1] == z3.If(z3.And(is_ok, more), rnd[p][t] + 1, rnd[p][t]),
-                        seen[p][t + 1] == z3.If(is_ok, V(NONE, GW), seenx), idle[p][t + 1] == is_ok,
+                        z3.And([seen[j][p][t + 1] == z3.If(is_ok, V(NONE, GW), seenx[j]) for j in range(HIST)]), idle[p][t + 1] == is_ok,
                         hold[p][t + 1] == holdx, acq[p][t + 1] == acqx)
                 if c == "create":
-                    o_ok, o_no = then("ok"), then("eexist")
+                    o_ok, o_no = then("ok", cur_hs), then("eexist", cur_hs)
                     eff = z3.If(lock[t],
-                                z3.And(lock[t + 1] == lock[t], gen[t + 1] == gen[t], finish(o_no[0], o_no[1], o_no[2], seen[p][t], hold[p][t], acq[p][t])),
-                                z3.And(lock[t + 1], gen[t + 1] == gen[t] + 1, finish(o_ok[0], o_ok[1], o_ok[2], seen[p][t], z3.BoolVal(True), now[t + 1])))
+                                z3.And(lock[t + 1] == lock[t], gen[t + 1] == gen[t], finish(o_no[0], o_no[1], o_no[2], cur_hs, hold[p][t], acq[p][t])),
+                                z3.And(lock[t + 1], gen[t + 1] == gen[t] + 1, finish(o_ok[0], o_ok[1], o_ok[2], cur_hs, z3.BoolVal(True), now[t + 1])))
                 elif c == "stat":
-                    o_e, o_s, o_n = then("enoent"), then("same"), then("new")
+                    o_e, o_k = then("enoent", cur_hs), then("ok", new_hs)
                     eff = z3.And(lock[t + 1] == lock[t], gen[t + 1] == gen[t],
-                                 z3.If(z3.Not(lock[t]), finish(o_e[0], o_e[1], o_e[2], seen[p][t], hold[p][t], acq[p][t]),
-                                       z3.If(seen[p][t] == gen[t], finish(o_s[0], o_s[1], o_s[2], seen[p][t], hold[p][t], acq[p][t]),
-                                             finish(o_n[0], o_n[1], o_n[2], gen[t], hold[p][t], acq[p][t]))))
+                                 z3.If(z3.Not(lock[t]), finish(o_e[0], o_e[1], o_e[2], cur_hs, hold[p][t], acq[p][t]),
+                                       finish(o_k[0], o_k[1], o_k[2], new_hs, hold[p][t], acq[p][t])))
                 else:   # rename: the process's own release if it holds the lock, a forced take-over otherwise; either way it no longer holds
-                    o_ok, o_no = then("ok"), then("enoent")
+                    o_ok, o_no = then("ok", cur_hs), then("enoent", cur_hs)
                     eff = z3.And(gen[t + 1] == gen[t],
-                                 z3.If(lock[t], z3.And(z3.Not(lock[t + 1]), finish(o_ok[0], o_ok[1], o_ok[2], seen[p][t], z3.BoolVal(False), acq[p][t])),
-                                       z3.And(lock[t + 1] == lock[t], finish(o_no[0], o_no[1], o_no[2], seen[p][t], z3.BoolVal(False), acq[p][t]))))
+                                 z3.If(lock[t], z3.And(z3.Not(lock[t + 1]), finish(o_ok[0], o_ok[1], o_ok[2], cur_hs, z3.BoolVal(False), acq[p][t])),
+                                       z3.And(lock[t + 1] == lock[t], finish(o_no[0], o_no[1], o_no[2], cur_hs, z3.BoolVal(False), acq[p][t]))))
                 s.add(z3.Implies(here, eff))
     viol_mutex = z3.Or([z3.And(hold[p][t], hold[q][t]) for t in range(T + 1) for p in range(K) for q in range(p + 1, K)])
     viol_raise = z3.Or([pc[p][t] == n for p in range(K) for t in range(T + 1) for n in term_raised]) if term_raised else z3.BoolVal(False)
